@@ -103,6 +103,13 @@ CLAIMED = {
         text='Per pair of neighbouring running rows the distance is a solver integer over the whole interior of the segment, so betweenness of the factor and of the best time, and "not decreasing from d to d+1", hold for every whole metre (and every whole-kilometre N K code) at once; '
              'both ends of the table are separate segments (20 m .. first row, last row .. 400 km).',
         note='Float abstraction with 1e-12 tolerance; ages are sampled (47; thorough 23/47/66.5/91) because the age axis is C14; segments whose bracketing bests have inverted speeds are excluded from the increasing clause (listed in evidence). One known finding (mile rows located by table km but interpolated with a 1609 m mile).'),
+    'C12': dict(
+        category='model_checking', design_ref='DESIGN.md section 3 C12',
+        technique='symbolic execution of the real check_performance_for_discipline on symbolic-character text templates (digit cells, separators, junk cell) per representative discipline; z3 path conditions and obligations on the digits of the returned text',
+        text='Bounded symbolic checking over a grammar of entries: every digit and junk character is a solver variable, each path of the cascade of format heuristics is explored, and the clauses (only the caller\'s error class, well-formed '
+             'fields below 60, plausible speed of the printed value, two-decimal field marks within 1.2 x record, integer multi-event scores, idempotence by running the real function on its own symbolic result) are decided per path.',
+        note='Doubles are modelled by their exact real values under a stated gap assumption (quantities have at most three decimals; comparisons against 0.5/10/11/60/100/1.2*record); number formatting by the correct-rounding contract. '
+             'Five known findings (non-idempotent corner cases of the heuristics), four fixed defects.'),
 }
 
 NOT_APPLICABLE = {
